@@ -32,11 +32,14 @@ class VClock:
         self.wall_step = wall_step
         self.pc_script = list(pc_script or [])  # explicit increments consumed first
         self.pc_calls = 0
+        self.first = None
 
     def perf_counter(self):
         self.pc_calls += 1
         inc = self.pc_script.pop(0) if self.pc_script else self.pc_step
         self.pc += inc
+        if self.pc_calls == 1:
+            self.first = self.pc  # the first reading of a turn is its start-of-turn stamp
         return self.pc
 
     def time(self):
